@@ -192,6 +192,12 @@ def sln_adjoint(mat, inv=None, **kwargs):
     if inv is None:
         inv = utils.invert(mat)
 
+    if not {"like", "dtype", "base_ring"} & set(kwargs):
+        # the default "like" further down is the conjugation *function*,
+        # which makes an object-dtype array; take the type of the
+        # matrices instead (inv is inexact also for integer input)
+        kwargs["like"] = inv
+
     return sln_linear_action(
         lambda M: mat @ M @ inv,
         n, **kwargs
@@ -201,6 +207,10 @@ def gln_adjoint(mat, inv=None, **kwargs):
     n = mat.shape[-1]
     if inv is None:
         inv = utils.invert(mat)
+
+    if not {"like", "dtype", "base_ring"} & set(kwargs):
+        # see sln_adjoint
+        kwargs["like"] = inv
 
     return linear_matrix_action(
         lambda M: mat @ M @ inv,
